@@ -533,3 +533,45 @@ def ob_fault_witnesses(pid, D, label="C06.e"):
                  engine="z3 picks members of the composed languages; each is replayed through the real CLI entry point (witness replay, not exhaustive)",
                  encodes=["cminx.main -> document -> document_single_file -> Documenter.__init__/process (real lexer, parser, listeners, ANTLR error strategy)"],
                  symbolic="the concrete text is chosen by z3 from prefix . fault . suffix languages", bound="one or two witnesses per (fault class, position class)")
+
+
+# ------------------------------------------------------------------------------------------------ C05.e corpus replay
+def ob_corpus(pid="C05", label="C05.e"):
+    """the property names 'the ~1000 files shipped with CMake': every module under /usr/share/cmake*/Modules is pushed through the
+    real Documenter (decode, lexer, parser, walk, rendering). Corpus replay: supports the lemmas, decides nothing by itself."""
+    def fn(work):
+        import contextlib, io, logging, re as _re
+        from cminx.documenter import Documenter
+        from cminx.config import Settings
+        t0 = time.time()
+        files = sorted(glob.glob("/usr/share/cmake*/Modules/**/*.cmake", recursive=True))
+        if not files:
+            return dict(verdict=vf.INCONCLUSIVE, detail="no CMake installation with modules found", paths=0)
+        template = _re.compile(r"^[ \t]*@[A-Za-z_0-9]+@", _re.M)       # configure_file() templates are not CMake source
+        bad, n, skipped = [], 0, 0
+        logging.disable(logging.CRITICAL)
+        for f in files:
+            try:
+                text = open(f, encoding="utf-8").read()
+            except (OSError, UnicodeDecodeError):
+                skipped += 1
+                continue
+            if template.search(text):
+                skipped += 1
+                continue
+            n += 1
+            try:
+                with contextlib.redirect_stderr(io.StringIO()):
+                    Documenter(f, "t", "m", Settings()).process()
+            except Exception as ex:
+                bad.append((f, "%s: %s" % (type(ex).__name__, str(ex)[:120])))
+        if bad:
+            rep = os.path.join(vf.ROOT, "replays", pid, "corpus.json")
+            os.makedirs(os.path.dirname(rep), exist_ok=True)
+            json.dump({"property": pid, "obligation": label, "failing_files": bad[:20]}, open(rep, "w"), indent=1)
+            return dict(verdict=vf.VIOLATION, replay=rep, paths=n, validated=n, detail="%d of %d shipped modules are not processed to completion, e.g. %s" % (len(bad), n, bad[0]))
+        return dict(verdict=vf.HOLDS, paths=n, validated=n, cpu_s=time.time() - t0, samples=[{"files": n, "skipped_templates_or_undecodable": skipped}],
+                    detail="%d modules shipped with CMake processed to completion by the real Documenter (%d configure_file templates skipped)" % (n, skipped))
+    return vf.FN("%s corpus replay: every module shipped with CMake is processed to completion" % label, fn,
+                 engine="concrete corpus replay through the real Documenter (supports C05.a-d; not a solver verdict)",
+                 encodes=["cminx.documenter.Documenter.__init__/process"], symbolic="-", bound="the *.cmake files under /usr/share/cmake*/Modules")
